@@ -896,6 +896,56 @@ fn perm_roundtrip(_seed: u64) -> serde_json::Value {
     json!({"found": false, "routine": "perm_roundtrip", "tried": tried})
 }
 
+// C06 / C04: optimize_context keeps the function of the graph, every input node, and never merges or drops-by-merging PRF / Random nodes
+fn optimizer_equiv(seed: u64) -> serde_json::Value {
+    use ciphercore_base::evaluators::simple_evaluator::SimpleEvaluator;
+    use ciphercore_base::graphs::util::simple_context;
+    use ciphercore_base::graphs::Operation;
+    use ciphercore_base::optimizer::optimize::optimize_context;
+    type B = Box<dyn Fn(&Graph) -> Result<ciphercore_base::graphs::Node>>;
+    let t = array_type(vec![3], INT32); let kt = array_type(vec![128], BIT);
+    let cases: Vec<(&str, B)> = vec![
+        ("duplicates and a dangling node", Box::new(move |g| { let a = g.input(array_type(vec![3], INT32))?; let b = g.input(array_type(vec![3], INT32))?; let _unused = g.input(array_type(vec![2], INT32))?; let s1 = a.add(b.clone())?; let s2 = a.add(b.clone())?; let _d = s1.multiply(s1.clone())?; s1.multiply(s2)?.subtract(b) })),
+        ("two PRF nodes with the same key and counter feeding a difference", Box::new(move |g| { let k = g.input(array_type(vec![128], BIT))?; let a = g.input(array_type(vec![3], INT32))?; let p1 = k.prf(0, array_type(vec![3], INT32))?; let p2 = k.prf(0, array_type(vec![3], INT32))?; a.add(p1)?.subtract(p2) })),
+        ("annotated copies are not merged with plain ones", Box::new(move |g| { let a = g.input(array_type(vec![3], INT32))?; let n1 = a.nop()?; n1.add_annotation(ciphercore_base::graphs::NodeAnnotation::Send(0, 1))?; let n2 = a.nop()?; n1.add(n2) })),
+        ("constants and unused constant", Box::new(move |g| { let a = g.input(array_type(vec![3], INT32))?; let c1 = g.constant(array_type(vec![3], INT32), Value::from_flattened_array(&[1u64, 2, 3], INT32)?)?; let _c2 = g.constant(array_type(vec![3], INT32), Value::from_flattened_array(&[9u64, 9, 9], INT32)?)?; a.multiply(c1.clone())?.add(c1) })),
+        ("tuple plumbing", Box::new(move |g| { let a = g.input(array_type(vec![3], INT32))?; let b = g.input(array_type(vec![3], INT32))?; let tp = g.create_tuple(vec![a.clone(), b.clone()])?; tp.tuple_get(1)?.add(tp.tuple_get(0)?)?.add(a) })),
+    ];
+    let _ = (&t, &kt);
+    let mut tried = 0u64;
+    for (name, build) in cases {
+        tried += 1;
+        let r = catch_unwind(AssertUnwindSafe(|| -> Result<Option<String>> {
+            let c = simple_context(|g| build(g))?;
+            let oc = optimize_context(&c, SimpleEvaluator::new(None)?)?.get_context();
+            let (g0, g1) = (c.get_main_graph()?, oc.get_main_graph()?);
+            let ins0: Vec<Type> = g0.get_nodes().iter().filter_map(|n| if let Operation::Input(t) = n.get_operation() { Some(t) } else { None }).collect();
+            let ins1: Vec<Type> = g1.get_nodes().iter().filter_map(|n| if let Operation::Input(t) = n.get_operation() { Some(t) } else { None }).collect();
+            if ins0 != ins1 { return Ok(Some(format!("input nodes changed: {} -> {}", ins0.len(), ins1.len()))); }
+            let prf0 = g0.get_nodes().iter().filter(|n| matches!(n.get_operation(), Operation::PRF(_, _))).count();
+            let prf1 = g1.get_nodes().iter().filter(|n| matches!(n.get_operation(), Operation::PRF(_, _))).count();
+            if prf1 != prf0 { return Ok(Some(format!("PRF nodes: {} before, {} after (all of them feed the output)", prf0, prf1))); }
+            let send0 = g0.get_nodes().iter().filter(|n| !n.get_annotations().unwrap().is_empty()).count();
+            let send1 = g1.get_nodes().iter().filter(|n| !n.get_annotations().unwrap().is_empty()).count();
+            if send1 != send0 { return Ok(Some(format!("annotated nodes: {} before, {} after (all of them feed the output)", send0, send1))); }
+            for rep in 0..3u64 {
+                let mut rng = Rng((seed + rep) | 1);
+                let inputs: Vec<Value> = ins0.iter().map(|t| { let st = t.get_scalar_type(); let n: u64 = t.get_shape().iter().product(); let v: Vec<u64> = (0..n).map(|_| if st == BIT { rng.next() & 1 } else { rng.next() % 1000 }).collect(); Value::from_flattened_array(&v, st).unwrap() }).collect();
+                let a = random_evaluate(g0.clone(), inputs.clone())?; let b = random_evaluate(g1.clone(), inputs.clone())?;
+                if a != b { return Ok(Some("the optimised graph computes a different value".to_owned())); }
+            }
+            Ok(None)
+        }));
+        match r {
+            Ok(Ok(None)) => {}
+            Ok(Ok(Some(m))) => return json!({"found": true, "routine": "optimizer_equiv", "property": "C06", "input": {"graph": name}, "observed": m, "what": "optimize_context with SimpleEvaluator, original vs. optimised main graph"}),
+            Ok(Err(e)) => return json!({"found": true, "routine": "optimizer_equiv", "property": "C06", "input": {"graph": name}, "observed": format!("error: {}", e)}),
+            Err(_) => return json!({"found": true, "routine": "optimizer_equiv", "property": "C06", "input": {"graph": name}, "observed": "panic"}),
+        }
+    }
+    json!({"found": false, "routine": "optimizer_equiv", "tried": tried})
+}
+
 // C14: per-party shares reconstruct the secret, for scalars, arrays (incl. bits and 128-bit) and nested containers
 fn share_roundtrip(seed: u64) -> serde_json::Value {
     use ciphercore_base::random::PRNG;
@@ -949,6 +999,7 @@ fn main() {
         Some("arith_kernels") => arith_kernels(seed),
         Some("cmp_small_widths") => cmp_small_widths(seed),
         Some("share_roundtrip") => share_roundtrip(seed),
+        Some("optimizer_equiv") => optimizer_equiv(seed),
         Some("perm_roundtrip") => perm_roundtrip(seed),
         Some("json_roundtrip") => json_roundtrip(seed),
         Some("protocol_knowledge") => protocol_knowledge(),
